@@ -55,3 +55,18 @@ Proof. reflexivity. Qed.
 
 Example C17_ex_nondivisor : sample_times 4 10 = [4; 8] /\ chunks 11 3 4 10 4 3 = [3; 1; 2; 2; 1; 1].
 Proof. split; reflexivity. Qed.
+
+(* the cadence in closed form: the i-th sample (from 0) is taken after step (i+1)*f, for i < floor(T/f) *)
+Theorem C17_sample_times_closed_form : forall f T, (0 < f)%nat ->
+  sample_times f T = map (fun i => ((i + 1) * f)%nat) (seq 0 (T / f)).
+Proof. exact sample_times_closed_form. Qed.
+Print Assumptions C17_sample_times_closed_form.
+
+(* edges: a period longer than the run samples nothing; period 1 samples after every step *)
+Theorem C17_period_longer_than_run : forall f T, (T < f)%nat -> sample_times f T = [].
+Proof. exact sample_times_none. Qed.
+Print Assumptions C17_period_longer_than_run.
+
+Theorem C17_period_one : forall T, sample_times 1 T = seq 1 T.
+Proof. exact sample_times_every_step. Qed.
+Print Assumptions C17_period_one.
